@@ -27,6 +27,10 @@ import (
 func (g *Engine) Start() error {
 	g.connsUnix = make([]*Conn, MaxOpenFiles)
 
+	// must be set before the pollers are started: the poller loop reads it
+	// once when it begins.
+	g.isOneshot = (g.EpollMod == EPOLLET && g.EPOLLONESHOT == EPOLLONESHOT)
+
 	// Create pollers and listeners.
 	g.pollers = make([]*poller, g.NPoller)
 	g.listeners = make([]*poller, len(g.Addrs))[0:0]
@@ -116,7 +120,6 @@ func (g *Engine) Start() error {
 	}
 
 	g.Timer.Start()
-	g.isOneshot = (g.EpollMod == EPOLLET && g.EPOLLONESHOT == EPOLLONESHOT)
 
 	if g.AsyncReadInPoller {
 		if g.IOExecute == nil {
